@@ -87,3 +87,24 @@ func (r *Replay) Int(lo, hi int, label string) int {
 	return v
 }
 func (r *Replay) Bool(label string) bool { return r.Int(0, 1, label) == 1 }
+
+// Bytes is a chooser driven by a byte string (structured decoder for native fuzz targets); it returns lo once exhausted.
+type Bytes struct {
+	Data []byte
+	pos  int
+}
+
+func (b *Bytes) Int(lo, hi int, label string) int {
+	n := hi - lo + 1
+	if n <= 1 || b.pos >= len(b.Data) {
+		return lo
+	}
+	v := int(b.Data[b.pos])
+	b.pos++
+	if n > 256 && b.pos < len(b.Data) {
+		v = v<<8 | int(b.Data[b.pos])
+		b.pos++
+	}
+	return lo + v%n
+}
+func (b *Bytes) Bool(label string) bool { return b.Int(0, 1, label) == 1 }
